@@ -133,9 +133,41 @@ def check_hat_centre(prog, ctx, rule):
             detail = "selector arguments %s and %s" % (src(ceils[0].args[0]), src(ceils[1].args[0]))
         except Exception as e:                                   # noqa: BLE001
             detail = "selector arguments not polynomial (%s)" % e
+    if not ceils:
+        # mask form: the flanks are multiplied by comparisons of x with the centre; with d = x - p one mask must select d > 0 (or d >= 0),
+        # the other d < 0 (or d <= 0), and exactly one of them includes d == 0
+        masks = []
+        for st in body:
+            if isinstance(st, ast.If):
+                continue
+            for b in ast.walk(st):
+                if isinstance(b, ast.BinOp) and isinstance(b.op, ast.Mult):
+                    for side in (b.left, b.right):
+                        if isinstance(side, ast.Compare) and len(side.ops) == 1 and isinstance(side.ops[0], (ast.Gt, ast.GtE, ast.Lt, ast.LtE)):
+                            masks.append(side)
+        detail = "expected two selectors (np.ceil(...) or comparison masks), found %d comparison masks" % len(masks)
+        if len(masks) == 2:
+            rel = []
+            operands = set()
+            for m_ in masks:
+                l_, r_ = tm.term(m_.left), tm.term(m_.comparators[0])
+                operands.add(frozenset((l_, r_)))
+                op = type(m_.ops[0]).__name__
+                rel.append((l_, op, r_))
+            if len(operands) == 1 and len(list(operands)[0]) == 2:
+                a0 = rel[0][0]
+                # normalise both to a relation "a0 ? other"
+                def norm(l_, op, r_):
+                    if l_ == a0:
+                        return op
+                    return {"Gt": "Lt", "GtE": "LtE", "Lt": "Gt", "LtE": "GtE"}[op]
+                ops_ = sorted(norm(*r) for r in rel)
+                ok = ops_ in (["Gt", "LtE"], ["GtE", "Lt"])
+                detail = "masks %s" % [src(m_) for m_ in masks]
     ctx.check(ok, rule, R.key_of(fv, "centre-counted-once"), fv.loc(ceils[0]) if ceils else fv.loc(),
-              "the two flank selectors are ceil(d + eps) and ceil(-d): the centre belongs to exactly one flank",
-              "vectorised hat: %s; the selectors must be ceil(x - p + eps) and ceil(p - x) with eps > 0 on exactly one side" % detail)
+              "the two flank selectors are ceil(d + eps) and ceil(-d) (or complementary comparison masks): the centre belongs to exactly one flank",
+              "vectorised hat: %s; the selectors must be ceil(x - p + eps) and ceil(p - x) with eps > 0 on exactly one side, or two comparison masks "
+              "that split the axis at the centre with equality on exactly one side" % detail)
     # ------------------------------------------------------------ scalar: if / elif covers both strict sides
     cands = [f for f in prog.methods_named("hat_function_non_symmetric") if f.module.name == "GridOperation"]
     if len(cands) != 1:
